@@ -72,6 +72,27 @@ def pcgrad(index, ctx):
                 core = core.operand
             if isinstance(core, ast.Compare) and len(core.ops) == 1 and classify(core) is not None:
                 tests.append((n, core))
+    if not tests:
+        # the sign test computed up front as a tensor (`conflicts = G < 0`) and looked up in the loops: it reads whatever that tensor was computed from
+        defs_ = {}
+        for a_ in ast.walk(fn):
+            if isinstance(a_, ast.Assign) and len(a_.targets) == 1 and isinstance(a_.targets[0], ast.Name):
+                defs_.setdefault(a_.targets[0].id, []).append(a_.value)
+        for n in ast.walk(fn):
+            if isinstance(n, ast.If) and any(isinstance(l_, ast.For) and any(x is n for x in ast.walk(l_)) for l_ in ast.walk(fn)):
+                for nm in [x for x in ast.walk(n.test) if isinstance(x, ast.Name) and len(defs_.get(x.id, [])) == 1]:
+                    v_ = defs_[nm.id][0]
+                    if isinstance(v_, ast.Compare) and len(v_.ops) == 1 and classify(v_) is not None:
+                        subj = oriented(v_, lambda e: not is_zero(e))[0]
+                        loops_ = [l_ for l_ in ast.walk(fn) if isinstance(l_, ast.For) and any(x is n for x in ast.walk(l_))]
+                        inner_ = min(loops_, key=lambda l_: sum(1 for _ in ast.walk(l_)))
+                        mut_ = inplace_mutated_names(inner_.body)
+                        if not (names_read(subj) & set(mut_)):
+                            ctx.violated("R1", "PCGrad: conflict is tested against the already-projected vector",
+                                         f"the loop consults `{norm_text(n.test)[:60]}`, where `{nm.id} = {norm_text(v_)[:50]}` was computed before the loops from {sorted(names_read(subj))}: whether row j "
+                                         f"conflicts is decided from the ORIGINAL rows, not from the vector the loop has already projected (updated there: {sorted(mut_)}) — a row that no longer conflicts "
+                                         "after an earlier projection is still projected off", _loc(fi, n))
+                            return
     if len(tests) != 1:
         ctx.undecided("R1", "PCGrad: conflict test", f"expected one sign test against 0 in forward, found {len(tests)}", fi.loc())
         return
@@ -256,6 +277,24 @@ def graddrop(index, ctx, A, by_class):
     row_syms = [t for t, e in atoms.items() if isinstance(e, ast.Subscript) and base_name(e) == mparam] or [t for t, e in atoms.items() if isinstance(e, ast.Name) and e.id in row_names]
     mask_syms = [t for t in atoms if t in mask_names]
     leak_syms = [t for t in atoms if t not in row_syms and t not in mask_syms]
+    if p is not None and len(row_syms) == 1 and len(mask_syms) == 1 and len(leak_syms) > 1:
+        # one of the symbols may be a value derived from the leak at CONSTRUCTION time (self._x = 1 - leak in __init__) and read back in forward
+        init_ = cls.lookup("__init__")
+        stored = {}
+        if init_ is not None:
+            for a_ in ast.walk(init_[1].node):
+                if isinstance(a_, ast.Assign) and len(a_.targets) == 1 and isinstance(a_.targets[0], ast.Attribute) and isinstance(a_.targets[0].value, ast.Name) and a_.targets[0].value.id == "self":
+                    stored[a_.targets[0].attr] = a_.value
+        verbatim = {k_: v_.id for k_, v_ in stored.items() if isinstance(v_, ast.Name)}  # self.leak = leak
+        read_in_fwd = {x.attr for x in ast.walk(fn) if isinstance(x, ast.Attribute) and isinstance(x.value, ast.Name) and x.value.id == "self"}
+        for fld, expr_ in stored.items():
+            params_used = {x.id for x in ast.walk(expr_) if isinstance(x, ast.Name)} & set(verbatim.values())
+            if fld in read_in_fwd and not isinstance(expr_, ast.Name) and params_used and any(verbatim_f in read_in_fwd for verbatim_f, pr in verbatim.items() if pr in params_used):
+                pub = next(vf for vf, pr in verbatim.items() if pr in params_used and vf in read_in_fwd)
+                ctx.violated("R2", "GradDrop: blend coefficient reads the configuration of the call",
+                             f"forward combines self.{pub} (read at call time) with self.{fld} = `{norm_text(expr_)[:40]}`, computed from the same argument once, in the constructor: after "
+                             f"`aggregator.{pub} = ...` (or an in-place change of that tensor) the two disagree and kept entries no longer weigh 1 (coefficient {pub}_new + 1 - {pub}_old)", _loc(fi, acc))
+                return
     if p is None or len(row_syms) != 1 or len(leak_syms) != 1 or len(mask_syms) != 1:
         ctx.undecided("R2", "GradDrop: blend coefficient", f"could not identify row/leak/mask symbols in `{norm_text(acc.value)}` (rows={row_syms}, leak={leak_syms}, mask={mask_syms})", _loc(fi, acc))
         return
@@ -273,6 +312,27 @@ def graddrop(index, ctx, A, by_class):
         u_names = [s2.targets[0].id for s2 in ast.walk(fn) if isinstance(s2, ast.Assign) and isinstance(s2.targets[0], ast.Name) and isinstance(s2.value, ast.Call)
                    and norm_text(s2.value.func).split(".")[-1] in ("rand", "rand_like")]
         mexpr = inline_locals(ms[0].value, fn, keep={M} | set(u_names))  # hoisted sub-masks (`keep = s > U`) read in place
+        # a loop variable running over `matrix.sign()` is the sign of the row
+        tg_, it_ = loop.target, loop.iter
+        pairs_ = []
+        if isinstance(it_, ast.Call) and isinstance(it_.func, ast.Name) and it_.func.id == "enumerate" and it_.args and isinstance(tg_, ast.Tuple) and len(tg_.elts) == 2:
+            pairs_ = [(tg_.elts[1], it_.args[0])]
+        elif isinstance(it_, ast.Call) and isinstance(it_.func, ast.Name) and it_.func.id == "zip" and isinstance(tg_, ast.Tuple) and len(tg_.elts) == len(it_.args):
+            pairs_ = list(zip(tg_.elts, it_.args))
+        elif isinstance(tg_, ast.Name):
+            pairs_ = [(tg_, it_)]
+        sign_vars = {t_.id for t_, src_ in pairs_ if isinstance(t_, ast.Name) and isinstance(src_, ast.Call) and norm_text(src_.func).split(".")[-1] in ("sign", "sgn")
+                     and norm_text(src_.func.value if isinstance(src_.func, ast.Attribute) and not src_.args else (src_.args[0] if src_.args else src_)) == mparam}
+        if sign_vars:
+            class _S(ast.NodeTransformer):
+                def visit_Name(self, n_):
+                    if n_.id in sign_vars and isinstance(n_.ctx, ast.Load):
+                        return ast.Call(func=ast.Attribute(value=ast.Name(id="torch", ctx=ast.Load()), attr="sign", ctx=ast.Load()), args=[ast.parse(row_syms[0], mode="eval").body], keywords=[])
+                    return n_
+
+            import copy as _copy
+
+            mexpr = ast.fix_missing_locations(_S().visit(_copy.deepcopy(mexpr)))
         ok_mask, why_mask = mask_equivalent(mexpr, row_syms[0], u_names[0] if len(u_names) == 1 else None)
         if ok_mask is None:
             ctx.undecided("R2", "GradDrop: mask keeps the positive entries or the negative entries of a column", f"mask `{norm_text(ms[0].value)}`: {why_mask}", _loc(fi, ms[0]))
@@ -357,7 +417,7 @@ def mask_equivalent(expr, row_text, u_name=None):
         pass
 
     def atom(c):
-        if not (isinstance(c, ast.Compare) and len(c.ops) == 1):
+        if not (isinstance(c, ast.Compare) and len(c.ops) == 1 and isinstance(c.ops[0], (ast.Gt, ast.Lt, ast.GtE, ast.LtE))):
             return None
         l, op, r = norm_text(c.left), type(c.ops[0]), norm_text(c.comparators[0])
         flip = {ast.Gt: ast.Lt, ast.Lt: ast.Gt, ast.GtE: ast.LtE, ast.LtE: ast.GtE}
@@ -383,34 +443,52 @@ def mask_equivalent(expr, row_text, u_name=None):
         pass
 
     def ev(e, env):
+        """Integer value of the expression (masks are 0 / 1; differences of masks and signs are -1 / 0 / 1)."""
         if isinstance(e, ast.Compare):
-            a = atom(e)
-            if a is None:
-                raise Unknown(f"`{norm_text(e)}` is not a sign test of the row or of the keep statistic")
-            return env[a[0]] if a[1] else not env[a[0]]
-        if isinstance(e, ast.BinOp) and isinstance(e.op, (ast.Mult, ast.BitAnd)):
-            return ev(e.left, env) and ev(e.right, env)
-        if isinstance(e, ast.BinOp) and isinstance(e.op, (ast.Add, ast.BitOr)):
+            a = atom(e) if len(e.ops) == 1 else None
+            if a is not None:
+                return int(env[a[0]] if a[1] else not env[a[0]])
+            if len(e.ops) == 1 and isinstance(e.ops[0], (ast.Eq, ast.NotEq, ast.Lt, ast.Gt, ast.LtE, ast.GtE)):
+                # a comparison between two values of the algebra (`kept_sign != 0`, `row_sign == kept_sign`)
+                import operator as _op
+
+                l, r = ev(e.left, env), ev(e.comparators[0], env)
+                return int({ast.Eq: _op.eq, ast.NotEq: _op.ne, ast.Lt: _op.lt, ast.Gt: _op.gt, ast.LtE: _op.le, ast.GtE: _op.ge}[type(e.ops[0])](l, r))
+            raise Unknown(f"`{norm_text(e)}` is not a sign test of the row or of the keep statistic")
+        if isinstance(e, ast.BinOp) and isinstance(e.op, ast.Mult):
+            return ev(e.left, env) * ev(e.right, env)
+        if isinstance(e, ast.BinOp) and isinstance(e.op, ast.BitAnd):
+            return int(bool(ev(e.left, env)) and bool(ev(e.right, env)))
+        if isinstance(e, ast.BinOp) and isinstance(e.op, ast.BitOr):
+            return int(bool(ev(e.left, env)) or bool(ev(e.right, env)))
+        if isinstance(e, ast.BinOp) and isinstance(e.op, (ast.Add, ast.Sub)):
             l, r = ev(e.left, env), ev(e.right, env)
-            if l and r and isinstance(e.op, ast.Add):
-                raise Unknown("a sum of two masks that can both be true is not a mask")
-            return l or r
+            return l + r if isinstance(e.op, ast.Add) else l - r
+        if isinstance(e, ast.UnaryOp) and isinstance(e.op, ast.USub):
+            return -ev(e.operand, env)
         if isinstance(e, ast.UnaryOp) and isinstance(e.op, (ast.Invert, ast.Not)):
-            return not ev(e.operand, env)
+            return int(not ev(e.operand, env))
         if isinstance(e, ast.Call):
             f = norm_text(e.func).split(".")[-1]
             if f == "where" and len(e.args) == 3:
                 return ev(e.args[1], env) if ev(e.args[0], env) else ev(e.args[2], env)
             if f in ("logical_and", "bitwise_and") and len(e.args) == 2:
-                return ev(e.args[0], env) and ev(e.args[1], env)
+                return int(bool(ev(e.args[0], env)) and bool(ev(e.args[1], env)))
             if f in ("logical_or", "bitwise_or") and len(e.args) == 2:
-                return ev(e.args[0], env) or ev(e.args[1], env)
+                return int(bool(ev(e.args[0], env)) or bool(ev(e.args[1], env)))
             if f in ("logical_not", "bitwise_not") and len(e.args) == 1:
-                return not ev(e.args[0], env)
-            if f in ("to", "float", "double", "type", "int", "bool") and isinstance(e.func, ast.Attribute):
+                return int(not ev(e.args[0], env))
+            if f in ("to", "float", "double", "type", "int", "bool", "long") and isinstance(e.func, ast.Attribute):
                 return ev(e.func.value, env)
-        if isinstance(e, ast.Constant) and e.value in (0, 1, True, False, 0.0, 1.0):
-            return bool(e.value)
+            if f in ("sign", "sgn"):
+                arg = e.func.value if isinstance(e.func, ast.Attribute) and not e.args else (e.args[0] if e.args else None)
+                if arg is not None and norm_text(arg) == row_text:
+                    return int(env["P"]) - int(env["N"])  # sign of the row entry
+                if arg is not None:
+                    v_ = ev(arg, env)
+                    return (v_ > 0) - (v_ < 0)
+        if isinstance(e, ast.Constant) and e.value in (0, 1, -1, True, False, 0.0, 1.0, -1.0):
+            return int(e.value)
         raise Unknown(f"`{norm_text(e)}` is outside the recognised mask algebra")
 
     try:
@@ -419,7 +497,9 @@ def mask_equivalent(expr, row_text, u_name=None):
                 continue
             env = {"A": A_, "B": B_, "P": P_, "N": N_}
             got = ev(expr, env)
-            want = (A_ and P_) or (B_ and N_)
+            want = int((A_ and P_) or (B_ and N_))
+            if got not in (0, 1):
+                raise Unknown(f"the expression takes the value {got} for s>U={A_}, s<U={B_}, row>0={P_}, row<0={N_}: not a mask")
             if got != want:
                 return False, f"for s>U={A_}, s<U={B_}, row>0={P_}, row<0={N_} the mask is {got} instead of {want}"
     except Unknown as u:
